@@ -349,7 +349,7 @@ fn check_stamps() -> Result<u64, String> {
 fn c10_shard(ctx: &Ctx, out: &mut ShardOut) {
     let pool = Pool::new();
     let b = budget_for(ctx.tier, ctx.shard_seed(81));
-    C10.run(ctx, &pool, 10, ctx.share(ctx.by_tier(320, 10_000)) as u32, &b, out);
+    C10.run(ctx, &pool, 10, ctx.share(ctx.by_tier(320, 3_000)) as u32, &b, out);
     let lb = Budget { single: 0, double: 0, coarse2: 0, tapes: ctx.by_tier(40, 200) as usize, tape_seed: ctx.shard_seed(91) };
     C10L.run(ctx, &pool, 18, ctx.share(ctx.by_tier(160, 4_000)) as u32, &lb, out);
     // sequential part: growth happens, exactly doubling, threshold 0.75 n afterwards
@@ -513,9 +513,9 @@ fn probe_budget(tier: Tier, seed: u64) -> Budget {
 fn c12_shard(ctx: &Ctx, out: &mut ShardOut) {
     let pool = Pool::new();
     let b = probe_budget(ctx.tier, ctx.shard_seed(82));
-    C12.run(ctx, &pool, 12, ctx.share(ctx.by_tier(96, 3_000)) as u32, &b, out);
-    C12R.run(ctx, &pool, 13, ctx.share(ctx.by_tier(64, 2_000)) as u32, &b, out);
-    C12C.run(ctx, &pool, 14, ctx.share(ctx.by_tier(48, 2_000)) as u32, &b, out);
+    C12.run(ctx, &pool, 12, ctx.share(ctx.by_tier(96, 400)) as u32, &b, out);
+    C12R.run(ctx, &pool, 13, ctx.share(ctx.by_tier(64, 300)) as u32, &b, out);
+    C12C.run(ctx, &pool, 14, ctx.share(ctx.by_tier(48, 200)) as u32, &b, out);
     out.exhaustive_parts.push("for each executed schedule: every yield point of every writer is a suspension point".into());
 }
 fn c12_replay(sub: &str, case: &Value) -> Result<(), CaseFail> {
@@ -597,20 +597,20 @@ fn c07_shard(ctx: &Ctx, out: &mut ShardOut) {
     });
     let pool = Pool::new();
     let b = budget_for(ctx.tier, ctx.shard_seed(83));
-    C07B.run(ctx, &pool, 7, ctx.share(ctx.by_tier(160, 6_000)) as u32, &b, out);
-    C07R.run(ctx, &pool, 8, ctx.share(ctx.by_tier(160, 6_000)) as u32, &b, out);
+    C07B.run(ctx, &pool, 7, ctx.share(ctx.by_tier(160, 1_500)) as u32, &b, out);
+    C07R.run(ctx, &pool, 8, ctx.share(ctx.by_tier(160, 1_500)) as u32, &b, out);
     let pb = match ctx.tier {
         Tier::Quick => Budget { single: 40, double: 8, coarse2: 40, tapes: 4, tape_seed: ctx.shard_seed(84) },
         Tier::Thorough => Budget { single: 400, double: 400, coarse2: 200, tapes: 20, tape_seed: ctx.shard_seed(84) },
     };
-    C07C.run(ctx, &pool, 9, ctx.share(ctx.by_tier(96, 3_000)) as u32, &pb, out);
-    C07D.run(ctx, &pool, 10, ctx.share(ctx.by_tier(64, 2_000)) as u32, &pb, out);
+    C07C.run(ctx, &pool, 9, ctx.share(ctx.by_tier(96, 400)) as u32, &pb, out);
+    C07D.run(ctx, &pool, 10, ctx.share(ctx.by_tier(64, 300)) as u32, &pb, out);
     let db = match ctx.tier {
         Tier::Quick => Budget { single: 30, double: 0, coarse2: 260, tapes: 2, tape_seed: ctx.shard_seed(88) },
         Tier::Thorough => Budget { single: 300, double: 300, coarse2: 3000, tapes: 20, tape_seed: ctx.shard_seed(88) },
     };
-    C07E.run(ctx, &pool, 11, ctx.share(ctx.by_tier(48, 3_000)) as u32, &db, out);
-    C07F.run(ctx, &pool, 12, ctx.share(ctx.by_tier(48, 3_000)) as u32, &b, out);
+    C07E.run(ctx, &pool, 11, ctx.share(ctx.by_tier(48, 300)) as u32, &db, out);
+    C07F.run(ctx, &pool, 12, ctx.share(ctx.by_tier(48, 1_000)) as u32, &b, out);
 }
 fn c07_replay(sub: &str, case: &Value) -> Result<(), CaseFail> {
     let b = budget_for(Tier::Thorough, 1);
@@ -966,11 +966,11 @@ fn c03_shard(ctx: &Ctx, out: &mut ShardOut) {
     });
     let pool = Pool::new();
     let b = budget_for(ctx.tier, ctx.shard_seed(85));
-    C03.run(ctx, &pool, 3, ctx.share(ctx.by_tier(128, 5_000)) as u32, &b, out);
-    C03K.run(ctx, &pool, 4, ctx.share(ctx.by_tier(128, 5_000)) as u32, &b, out);
-    C03R.run(ctx, &pool, 5, ctx.share(ctx.by_tier(96, 4_000)) as u32, &b, out);
+    C03.run(ctx, &pool, 3, ctx.share(ctx.by_tier(128, 1_500)) as u32, &b, out);
+    C03K.run(ctx, &pool, 4, ctx.share(ctx.by_tier(128, 1_500)) as u32, &b, out);
+    C03R.run(ctx, &pool, 5, ctx.share(ctx.by_tier(96, 1_000)) as u32, &b, out);
     let pb = probe_budget(ctx.tier, ctx.shard_seed(86));
-    C03P.run(ctx, &pool, 6, ctx.share(ctx.by_tier(64, 2_000)) as u32, &pb, out);
+    C03P.run(ctx, &pool, 6, ctx.share(ctx.by_tier(64, 400)) as u32, &pb, out);
     let _ = crate::alloc::drain_and_check();
     crate::alloc::enable(false);
 }
